@@ -320,7 +320,7 @@ def obs_tokens(rc, matrix, tree):
             t.append('!' if c is None else ':'.join(hb(x or '') for x in c))
     t.append(str(len(tree)))
     for p in sorted(tree):
-        t += [hb(p.encode('latin1', 'surrogateescape') if isinstance(p, str) else p), '!' if tree[p] is None else hexs(tree[p])]
+        t += [hb(os.fsencode(p)), '!' if tree[p] is None else hexs(tree[p])]
     return t
 
 
@@ -657,7 +657,7 @@ def extended_search(ctx, res, proof):
 
 
 def replay(ctx, rep):
-    case = rep.get('case') or (rep.get('first_disagreements') or [{}])[0].get('case')
+    case = rep if 'arches' in rep else (rep.get('case') or (rep.get('first_disagreements') or [{}])[0].get('case'))
     if case is None or 'arches' not in case:
         print(json.dumps(rep, indent=1)[:3000])
         return 1
